@@ -137,9 +137,10 @@ def stack_growth_align_exec():
             h["down"] = 1
         al = rng.choice([32, 64, 64])
         out = []
-        for k in (8, 24, 40, 56):
+        # the old top is aligned for the request (padding 0) / has some other residue
+        for pre in (["an %d %d" % (al, al)], ["an 8 8"], ["an %d %d" % (al, al), "an 24 8"], ["an 40 8"]):
             for d in (0, 8, 16, 24, 32, 40, 48, 56):
-                out.append((h, ["an %d 8" % k, "anr %d %d" % (d, al), "an 8 8", "anr %d %d" % (d + 8, al), "an 8 8", "sweep", "d 0", "d 0"]))
+                out.append((h, pre + ["anr %d %d" % (d, al), "an 8 8"] + pre[:1] + ["anr %d %d" % (d + 8, al), "an 8 8", "sweep", "d 0", "d 0"]))
         return out
     return f
 
